@@ -27,6 +27,12 @@ var Registry = map[string]func(*ev.Run){
 	"C05": func(r *ev.Run) {
 		RunScenarioFamily(r, "c05", len(C05Scenarios(pairTier(r))), "struct pair In{A,B,Name}->Out{A,B,Name} under every source-struct variant x target variant x placement x every subset of <=k field-setting lines; generation outcome vs model verdict, accepted cases executed on all values within the deviation bound against the model plan")
 	},
+	"C06": func(r *ev.Run) {
+		RunScenarioFamily(r, "c06", len(C06Scenarios(pairTier(r))), "leaf pair with a custom function in each form (extend local / other package / regex / converter argument / error / declared method with own field settings / underlying types / context variants) wrapped by every nesting path of <=d constructors (pointer, slice, map value, map key, unnamed struct, named struct); generation outcome vs model; accepted cases executed on all values within the deviation bound: the custom function's recognisable result (function marker + context digest) must appear at exactly the model's Custom positions")
+	},
+	"C07": func(r *ev.Run) {
+		RunScenarioFamily(r, "c07", len(C07Scenarios(pairTier(r))), "fallible custom functions (fail iff the argument marker is negative) under every nesting path x wrapping mode {none, wrapErrors, wrapErrorsUsing with a recording package}; inputs within the value deviation bound give no fault, every single fault (k=1) and every pair of faults (k=2); oracle: error iff a failing element exists, error wraps the function's sentinel, reported location (all Wrap calls concatenated / parsed wrapErrors chain) leads to a failing element of the input")
+	},
 	"C13": func(r *ev.Run) { RunPairs(r, pairTier(r)) },
 }
 
@@ -40,6 +46,12 @@ var Workers = map[string]func(w *pool.W, shard, n int, args []string) error{
 			}
 		}
 		return ScenarioWorker(w, scs, args[0], len(args) < 3 || args[2] != "gen-only")
+	},
+	"c06": func(w *pool.W, shard, n int, args []string) error {
+		return ScenarioWorker(w, shardOf(C06Scenarios(args[0]), shard, n), args[0], true)
+	},
+	"c07": func(w *pool.W, shard, n int, args []string) error {
+		return ScenarioWorker(w, shardOf(C07Scenarios(args[0]), shard, n), args[0], true)
 	},
 	"pairs": func(w *pool.W, shard, n int, args []string) error { return PairWorker(w, shard, n, args[0]) },
 }
